@@ -82,6 +82,8 @@ def build(sp, omit=(), labels=None, originals=None):
     ('domain', 'rho:A', 'd:A', 'pot:A|B', 'clo:A|B', 'om:A|B'); `labels` maps the spec's type names to the labels used in the
     real System (any hashable: other strings, integers); `originals` (a list) collects the potential/closure/omega objects the
     user handed to the tables (the tables store copies)"""
+    if labels is None:
+        labels = sp.get('labels')
     lab = (lambda t: t) if labels is None else (lambda t: labels[t])
     types = [lab(t) for t in sp['types']]
     if sp.get('kT_via') == 'assign':
@@ -136,6 +138,27 @@ def make_domain(sp):
 
 
 VIAS = ['dr', 'dr', 'dr', 'dk', 'setters', 'setters_dk', 'dk_then_length']
+
+
+LABEL_MODES = ['same', 'same', 'strings', 'substrings', 'ints_reversed', 'ints_shifted']
+
+
+def choose_labels(rng, types):
+    """real type labels for the spec names: other strings, strings that contain each other, integers that are not the list positions"""
+    mode = str(rng.choice(LABEL_MODES))
+    if mode == 'strings':
+        return {t: 'type_' + t.lower() for t in types}
+    if mode == 'substrings':
+        return {t: 'C' + 'H' * i for i, t in enumerate(types)}            # 'C', 'CH', 'CHH': each label is a substring of the next
+    if mode == 'ints_reversed':
+        return {t: len(types) - 1 - i for i, t in enumerate(types)}
+    if mode == 'ints_shifted':
+        return {t: 10 * (i + 1) + 7 for i, t in enumerate(types)}
+    return None
+
+
+def lab(sp, t):
+    return t if not sp.get('labels') else sp['labels'][t]
 
 
 def sigma_of(sp, a, b):
